@@ -275,6 +275,11 @@ pub(crate) fn repair_corrupted_wal_segment(wal_dir: &Path, segment_id: usize) ->
 
 	// Create a repair directory for the new WAL file
 	let repair_dir = wal_dir.join("repair_temp");
+	// A previous repair interrupted by a crash leaves its partial output behind; the
+	// repair WAL below would be opened for append on top of it. Always start empty.
+	if repair_dir.exists() {
+		fs::remove_dir_all(&repair_dir)?;
+	}
 	fs::create_dir_all(&repair_dir)?;
 
 	// Create a new Wal for writing the repaired data
